@@ -5,6 +5,7 @@ CONSTANTS
   RootSlots <- Slots12
   Realms = {1, 2}
   MaxOps = 5
+  MaxOps1 = 5
   MaxTx = 4
   OwnerFix = TRUE
   AttachGuard = TRUE
